@@ -10,12 +10,16 @@
   obs   := (EV…)  the master's trace of the REAL core, projected, plus the harness' markers:
     (kv F|-) (start L) (sub L F|- FO) (subd F) (recon N HTTP) (launch E T) (upd T STATE recon|-|other DELIVERED)
     (kill T HTTP) (drop) (killcore) (term) (exited) (destroy E) (destroyed E OK) (teardown)
-    (envs (E STATE T…)…) (own PHASE (T LOCKED STATUS)…) (quiet L (T LIFE STATE)…)
+    (envs (E STATE T…)…) (own PHASE (T LOCKED STATUS)…) (quiet L (T LIFE STATE [hid])…)
+    (hide T…) (unhide T…) (mute) (unmute)     what the master can report in answer to a RECONCILE changes
+                                              (harness: sim.HideFromReconcile / SetReconcileSilent); a `hid` row of a
+                                              quiet point = alive, but the master would not report it
     envs = GetEnvironments(showAll, showTaskInfos): every environment with the tasks its roles hold (locked);
     own = GetTasks: the roster.
   tasks tN, barrier tasks bN (reconciliation updates about tasks nobody knows), environments eN, framework ids fN.
 
-  MONITOR (modelObs = ACCEPT | REJECT:<why>): the trace is replayed as a history of Model/Reconcile.lean with
+  MONITOR (modelObs = ACCEPT | REJECT:<why>): the trace is replayed as a history of Model/Resubscribe.lean (the
+  layer over Model/Reconcile.lean whose steps `hide`/`unhide`/`mute`/`unmute` change what the master answers) with
   the configuration the code has NOW (`Spec.C18.codeCfg`, from the regenerated facts): what the master and
   the harness did become steps (coreStart, coreKill, coreTerm, subscribe, drop, launch, status, reconUpdate,
   release — a teardown the harness asked for is split: `releaseBegin` at (destroy E), `releaseEnd` at (destroyed E OK)
@@ -34,6 +38,10 @@
   earlier lives. RECONCILE
   calls are in that log too, so `orphansKilledEachRound` asks for a KILL of every orphan listed at a quiet point
   that is newer than the latest RECONCILE of that life (scripts with `(stubborn …)`: the orphan outlives its KILL).
+  The SUBSCRIBE/SUBSCRIBED pairs of the trace (`Sub`: presented id, assigned id, accepted = a RECONCILE call or a
+  quiet point followed on that stream) are rebuilt too: `identityKept` / `oneFramework` (`Spec.C18.allR`).
+  hyp = late_orphan_never_reconciled when only the orphan clauses fail and the replayed history violates
+  `noLateOrphans` (the excluded hypothesis of C18_visible_orphans_killed_partial);
   hyp = reconnect_kills_owned when only `ownedSpared` fails, the code has no roster test, and the replayed
   history violates `noReconnWhileOwning` (the excluded hypothesis of C18_owned_spared_partial).
 -/
@@ -59,7 +67,10 @@ inductive TEv where
   | destroyed (e : Nat) (ok : Bool)
   | envs (rows : List (Nat × List Nat))
   | own (phase : String) (rows : List (Nat × Bool))
-  | quiet (l : Nat) (rows : List (Nat × Nat × MState))
+  | quiet (l : Nat) (rows : List (Nat × Nat × MState × Bool))
+  | hide (ts : List Nat)
+  | unhide (ts : List Nat)
+  | mute | unmute
 
 def pref (p : Char) (base : Nat) : SExp → Option Nat
   | .atom s =>
@@ -101,8 +112,13 @@ def parseEv : SExp → Option TEv
     pure (.own phase (← rows.mapM? fun | .list [t, l, _] => do pure ((← taskRef t), (← l.bool?)) | _ => none))
   | .list (.atom "quiet" :: l :: rows) => do
     pure (.quiet (← l.nat?) (← rows.mapM? fun
-      | .list [t, life, .atom s] => do pure ((← taskRef t), (← life.nat?), (← stateOfShort s))
+      | .list [t, life, .atom s] => do pure ((← taskRef t), (← life.nat?), (← stateOfShort s), false)
+      | .list [t, life, .atom s, .atom "hid"] => do pure ((← taskRef t), (← life.nat?), (← stateOfShort s), true)
       | _ => none))
+  | .list (.atom "hide" :: ts) => do pure (.hide (← ts.mapM? taskRef))
+  | .list (.atom "unhide" :: ts) => do pure (.unhide (← ts.mapM? taskRef))
+  | .list [.atom "mute"] => some .mute
+  | .list [.atom "unmute"] => some .unmute
   | _ => none
 
 /-! ## the monitor -/
@@ -110,8 +126,8 @@ def parseEv : SExp → Option TEv
 def W : World := World.complete
 
 structure Mon where
-  s : St
-  hist : List Step := []          -- newest first
+  r : RSt
+  hist : List RStep := []         -- newest first
   mark : Nat := 0                 -- length of `s.log` at the last synchronisation
   seen : List String := []        -- SUBSCRIBE/RECONCILE calls of the real core since then
   kills : List (Nat × Bool) := [] -- its KILL calls since then: task, and whether the master held the task terminal already
@@ -124,9 +140,13 @@ structure Mon where
 
 def Mon.fail (m : Mon) (why : String) : Mon := if m.err.isSome then m else { m with err := some why }
 
-def Mon.step (m : Mon) (x : Step) : Mon :=
-  let s' := Reconcile.step codeCfg W m.s x
-  { m with s := s', hist := x :: m.hist, window := (s'.roster.map (·.id) ++ m.window).eraseDups }
+def Mon.s (m : Mon) : St := m.r.base
+
+def Mon.rstep (m : Mon) (x : RStep) : Mon :=
+  let r' := Reconcile.rstep codeCfg m.r x
+  { m with r := r', hist := x :: m.hist, window := (r'.base.roster.map (·.id) ++ m.window).eraseDups }
+
+def Mon.step (m : Mon) (x : Step) : Mon := m.rstep (.base x)
 
 /-- read and handle everything that is on the stream behind an already-read SUBSCRIBED -/
 def Mon.drain (m : Mon) : Nat → Mon
@@ -276,16 +296,24 @@ def Mon.onEv (m : Mon) (kv0 : Option Nat) : TEv → Mon
     if heldRows m.envHeld == heldRows m.s.held then m
     else m.fail s!"GetEnvironments ({phase}) says the environments hold {heldRows m.envHeld}, the model's environments {heldRows m.s.held}"
   | .quiet l rows =>
+    let m := if m.s.hello.isSome then m.fail s!"quiet point of life {l} with the model's SUBSCRIBED unread: no RECONCILE call was seen after the latest SUBSCRIBED" else m
     let m := m.sync true s!"quiet point of life {l}"
-    let m := if m.s.hello.isSome then m.fail "quiet point with SUBSCRIBED unread (no RECONCILE seen)" else m
     let m := m.step .snapshot
-    let want := sortS ((rows.filter fun (_, life, st) => life < l && unguardedCfg.killable st).map fun (t, _, _) => toString t)
+    let want := sortS ((rows.filter fun (_, life, st, hid) => life < l && unguardedCfg.killable st && !hid).map fun (t, _, _, _) => toString t)
+    -- the tasks the harness holds hidden are the ones the model's master leaves out
+    let hidNow := sortS ((rows.filter fun (_, _, _, hid) => hid).map fun (t, _, _, _) => toString t)
+    let hidModel := sortS (((m.s.tasks.filter fun t => !t.state.terminal && m.r.hidden.contains t.id).map (·.id)).eraseDups.map toString)
+    let m := if hidNow == hidModel then m else m.fail s!"quiet point: the master hides {hidNow}, the model's master {hidModel}"
     let m := match m.s.log with
       | .snap l' os :: _ =>
         if l' == l && sortS (os.map toString) == want then m
         else m.fail s!"quiet point: the master holds orphans {want}, the model {os}"
       | _ => m.fail "quiet point: the model is not quiescent"
     { m with mark := m.s.log.length }
+  | .hide ts => ts.foldl (fun m t => m.rstep (.hide t)) m
+  | .unhide ts => ts.foldl (fun m t => m.rstep (.unhide t)) m
+  | .mute => m.rstep .mute
+  | .unmute => m.rstep .unmute
 where
   removeOneUpd (u : Upd) : List Upd → Option (List Upd)
     | [] => none
@@ -309,6 +337,8 @@ structure Obs where
   terminating : Bool := false
   lastReason : List (Nat × Reason) := []
   envOf : List (Nat × Nat) := []
+  /-- the SUBSCRIBE calls (newest first) with what the master answered and whether the core went on under it -/
+  subs : List Sub := []
 
 def Obs.onEv (o : Obs) (ev : TEv) : Obs :=
   let o := { o with pos := o.pos + 1 }
@@ -318,8 +348,12 @@ def Obs.onEv (o : Obs) (ev : TEv) : Obs :=
     | some g => if o.lastKv == some g then o else { o with log := .persist o.life g :: o.log, lastKv := some g }
     | none => o
   | .start l => { o with life := l, own := [], held := [], destroying := [], terminating := false, lastReason := [] }
-  | .sub l f _ => { o with log := .subscribe l f :: o.log }
-  | .recon 0 _ => { o with log := .reconcile o.life :: o.log }
+  | .sub l f _ => { o with log := .subscribe l f :: o.log,
+                           subs := { life := l, carry := f, assigned := 0, accepted := false } :: o.subs }
+  | .subd f => { o with subs := match o.subs with | y :: ys => { y with assigned := f } :: ys | [] => [] }
+  | .recon 0 http =>
+    -- a RECONCILE the master took on this stream shows that the SUBSCRIBED handler got past TrackSubscription
+    { o with log := .reconcile o.life :: o.log, subs := if http == 202 then acceptHead o.subs else o.subs }
   | .launch e t => { o with envOf := (t, e) :: o.envOf }
   | .upd t st r d =>
     let o := if st.terminal && r != .recon then { o with dead := t :: o.dead } else o
@@ -345,7 +379,9 @@ def Obs.onEv (o : Obs) (ev : TEv) : Obs :=
     let owned := !o.terminating && !released && (o.own.contains (t, true) || o.held.contains t)
     { o with log := .kill o.life t why owned :: o.log }
   | .quiet l rows =>
-    { o with log := .snap l ((rows.filter fun (_, life, st) => life < l && unguardedCfg.killable st).map (·.1)) :: o.log }
+    -- a quiet point was reached under the current subscription (the barrier was answered on its stream)
+    { o with log := .snap l ((rows.filter fun (_, life, st, hid) => life < l && unguardedCfg.killable st && !hid).map (·.1)) :: o.log,
+             subs := acceptHead o.subs }
   | _ => o
 
 def parseKv0 : SExp → Option (Option Nat)
@@ -361,17 +397,23 @@ def processLine (line : String) : String :=
       | none => "REJECT:unparsable-observation\t0\t-"
       | some tr =>
         let refused := tr.filterMap fun | .destroyed e false => some e | _ => none
-        let m := tr.foldl (fun m e => m.onEv kv0 e) ({ s := init kv0, refused := refused } : Mon)
+        let m := tr.foldl (fun m e => m.onEv kv0 e) ({ r := rinit kv0, refused := refused } : Mon)
         let m := m.sync true "end of the trace"
         let snaps := (tr.zipIdx.filterMap fun (e, i) => match e with | .envs rows => some (i + 1, rows) | _ => none)
         let o := tr.foldl Obs.onEv { snaps := snaps }
-        let spec := Spec.C18.all o.log
+        let spec := Spec.C18.allR o.log o.subs
         let model := match m.err with | none => "ACCEPT" | some w => "REJECT:" ++ (w.replace "\t" " ").replace "\n" " "
-        let onlyOwned := sameIdentity o.log && persistedOnce o.log && orphansKilled o.log && orphansKilledEachRound o.log &&
-          updatesNeverKill o.log && !ownedSpared o.log
+        let ids := identityKept o.subs && oneFramework o.subs
+        let orphanOk := orphansKilled o.log && orphansKilledEachRound o.log && orphansKilledEachSubscription o.log
+        let onlyOwned := sameIdentity o.log && persistedOnce o.log && orphanOk && ids && updatesNeverKill o.log && !ownedSpared o.log
+        let onlyOrphans := sameIdentity o.log && persistedOnce o.log && ids && updatesNeverKill o.log && ownedSpared o.log && !orphanOk
+        let hist := m.hist.reverse
         let hyp :=
-          if !spec && onlyOwned && !codeCfg.rosterGuard && !noReconnWhileOwning codeCfg W m.hist.reverse (init kv0)
-          then "reconnect_kills_owned" else "-"
+          if !spec && onlyOwned && !codeCfg.rosterGuard &&
+             !noReconnWhileOwning codeCfg W (hist.filterMap fun | .base x => some x | _ => none) (init kv0)
+          then "reconnect_kills_owned"
+          else if !spec && onlyOrphans && !noLateOrphans codeCfg hist (rinit kv0) then "late_orphan_never_reconciled"
+          else "-"
         s!"{model}\t{if spec then 1 else 0}\t{hyp}"
     | _, _ => "BADINPUT\t0\t-"
   | _ => "BADLINE\t0\t-"
